@@ -127,6 +127,10 @@ class Replacer(Builder):
     validate_patch(self._output_text, patch)
     in_start = self.get_input_pos(patch.start)
     in_end = self.get_input_pos(patch.end)
+    if patch.end > patch.start:
+      # The end of a non-empty range belongs to its last character: when text was deleted right
+      # after that character, get_input_pos(patch.end) is the position after the deleted text.
+      in_end = min(in_end, self.get_input_pos(patch.end - 1) + 1)
     in_patch = make_patch(self._in_builder.get_text(), in_start, in_end, patch.new_text)
     return self._in_builder.map_back_patch(in_patch)
 
